@@ -1,36 +1,71 @@
 #!/bin/bash
-# usage: seedverify.sh <seed-name> <worktree> <property> [check ids...]
-# Confirms a seeded change in its scratch worktree (suite passes with it, demo fails with it and
-# passes without it), runs the given checks against the worktree (VERIF_REPO) and stores the
-# artefacts under /verif/seeded/<seed-name>/.
+# usage: seedverify.sh <mode> <seed-name> <property> [check ids...]
+#   mode confirm : in a fresh scratch worktree of /repo HEAD (outside /repo and /verif, removed
+#                  afterwards) confirm that the demonstration fails with the change and passes
+#                  without it, and that the existing suite still passes with the change
+#   mode check   : run the given checks against such a worktree with the change applied
+#                  (VERIF_REPO=<worktree>); /repo itself is not touched
+#   mode official: the route of the task brief: git -C /repo apply, run the checks against /repo,
+#                  git -C /repo checkout -- .   (only when nothing else is using /repo)
+# Inputs are /verif/seeded/<seed-name>/{patch.diff, zz_seed_demo_test.go.txt, .pkg, NOTES.md};
+# results go to confirm.json / check-<id>.out there; tools/seedmeta.py builds meta.json.
+# All `go test` runs happen in a private network namespace: the repository's tests bind fixed
+# TCP ports and would otherwise interfere with anything else running on the machine.
 set -u
-name=$1; wt=$2; prop=$3; shift 3; checks="$*"
+mode=$1; name=$2; prop=$3; shift 3; checks="$*"
 export GOFLAGS=-mod=mod GOPROXY=off GOSUMDB=off GOTOOLCHAIN=local
-out=/verif/seeded/$name; mkdir -p $out
-cp $wt/SEED/patch.diff $out/patch.diff
-for f in $wt/SEED/*; do case "$f" in *patch.diff) ;; *) cp "$f" $out/ ;; esac; done
-cd $wt
-demo=$(ls zz_seed*_test.go mux/zz_seed*_test.go 2>/dev/null | head -1)
-pkg=.; case "$demo" in mux/*) pkg=./mux ;; esac
-log=$out/verify.log; : > $log
-# state: change applied?
-git apply --check -R SEED/patch.diff 2>/dev/null && applied=1 || applied=0
-[ $applied = 0 ] && git apply SEED/patch.diff
-echo "== demo WITH change (expect FAIL)" >> $log
-go test -vet=off -count=1 -run 'TestSeed' $pkg >> $log 2>&1; with=$?
-git apply -R SEED/patch.diff
-echo "== demo WITHOUT change (expect ok)" >> $log
-go test -vet=off -count=1 -run 'TestSeed' $pkg >> $log 2>&1; without=$?
-git apply SEED/patch.diff
-echo "== suite WITH change, demo moved aside (expect ok)" >> $log
-mkdir -p /tmp/seed-aside-$name; mv $demo /tmp/seed-aside-$name/
-go build ./... >> $log 2>&1 && go test -vet=off -count=1 -timeout 25m ./... >> $log 2>&1; suite=$?
-mv /tmp/seed-aside-$name/$(basename $demo) $demo; rmdir /tmp/seed-aside-$name
-res=""
-for c in $checks; do
-  echo "== check $c against the changed tree" >> $log
-  VERIF_REPO=$wt /verif/bin/check $c > $out/check-$c.out 2>&1; rc=$?
-  grep -E "^(violation|VIOLATION|KNOWN|check )" $out/check-$c.out >> $log
-  res="$res $c:exit=$rc"
-done
-echo "SEED $name prop=$prop demo_with=$with demo_without=$without suite_with=$suite checks:$res" | tee -a $log
+d=/verif/seeded/$name
+pkg=$(cat $d/.pkg 2>/dev/null || echo .)
+ns() { unshare -n bash -c "ip link set lo up; $1"; }
+mkwt() {
+  wt=$(mktemp -d /tmp/sv-XXXXXX); rmdir $wt
+  git -C /repo worktree add --detach -q $wt HEAD || exit 3
+}
+rmwt() { git -C /repo worktree remove --force $wt; git -C /repo worktree prune; rm -rf $wt; }
+case $mode in
+confirm)
+  mkwt; cd $wt
+  log=$d/confirm.log; : > $log
+  raceflag=""; [ "$prop" = C19 ] && raceflag="-race"
+  cp $d/zz_seed_demo_test.go.txt $wt/$pkg/zz_seed_demo_test.go
+  applies=0; git apply --check $d/patch.diff 2>>$log && applies=1
+  if [ $applies = 0 ]; then git apply --3way $d/patch.diff >>$log 2>&1 && applies=2; git reset -q; fi
+  [ $applies = 1 ] && git apply $d/patch.diff
+  echo "== demo WITH change (expect FAIL): go test $raceflag -vet=off -count=1 -run TestSeed ./$pkg" >> $log
+  ns "go test $raceflag -vet=off -count=1 -timeout 10m -run TestSeed ./$pkg" >> $log 2>&1; with=$?
+  git diff > $wt/.applied.diff; git apply -R $wt/.applied.diff
+  echo "== demo WITHOUT change (expect ok)" >> $log
+  ns "go test $raceflag -vet=off -count=1 -timeout 10m -run TestSeed ./$pkg" >> $log 2>&1; without=$?
+  git apply $wt/.applied.diff
+  echo "== suite WITH change (expect ok): go build ./... && go test -vet=off -count=1 -timeout 25m -skip TestSeed ./..." >> $log
+  ns "go build ./... && go test -vet=off -count=1 -timeout 25m -skip TestSeed ./..." >> $log 2>&1; suite=$?
+  if [ $suite != 0 ]; then
+    echo "== suite WITH change, second attempt (the suite has load-sensitive tests)" >> $log
+    ns "go test -vet=off -count=1 -timeout 25m -skip TestSeed ./..." >> $log 2>&1; suite=$?
+  fi
+  head=$(git -C /repo rev-parse --short HEAD)
+  echo "{\"repo_head\":\"$head\",\"patch_applies\":$applies,\"demo_with_change_exit\":$with,\"demo_without_change_exit\":$without,\"suite_with_change_exit\":$suite}" > $d/confirm.json
+  cd /; rmwt
+  echo "SEED $name confirm: applies=$applies demo_with=$with demo_without=$without suite_with=$suite"
+  ;;
+check)
+  mkwt; cd $wt
+  git apply $d/patch.diff 2>/dev/null || git apply --3way $d/patch.diff || { echo "patch does not apply"; cd /; rmwt; exit 3; }
+  git reset -q
+  for c in $checks; do
+    VERIF_REPO=$wt /verif/bin/check $c > $d/check-$c.out 2>&1; rc=$?
+    echo "SEED $name check $c exit=$rc: $(grep -E '^violation: ' $d/check-$c.out | sed 's/^violation: //' | sort -u | head -4 | tr '\n' ';')"
+  done
+  cd /; rmwt
+  (cd /verif && git checkout -- evidence)
+  ;;
+official)
+  git -C /repo apply $d/patch.diff || exit 3
+  for c in $checks; do
+    /verif/bin/check $c > $d/check-$c.out 2>&1; rc=$?
+    echo "SEED $name check(official route) $c exit=$rc: $(grep -E '^violation: ' $d/check-$c.out | sed 's/^violation: //' | sort -u | head -4 | tr '\n' ';')"
+  done
+  git -C /repo checkout -- .
+  (cd /verif && git checkout -- evidence)
+  ;;
+esac
